@@ -1,10 +1,11 @@
 (* Runs the extracted C04 model (coq/Lang/Mini*.v) on core programs given as s-expressions.
    Input lines:
-     P <sexp of a prog>     answer:  B <wfb> <check diags> <check_patched diags> <quirk_free> <shadow_free>
+     P <sexp of a prog>     answer:  B <wfb> <check diags> <check_pinned diags> <quirk_free> <shadow_free>
                              then one line per mutant of every fault class (Coq's MiniMutate.mutants):
-                                     M <fault> <index> <wfb> <check diags> <check_patched diags> <sexp of the mutant>
+                                     M <fault> <index> <wfb> <check diags> <check_pinned diags> <sexp of the mutant>
                              then    E
-     C <sexp of a prog>     answer:  B <wfb> <check diags> <check_patched diags>      (no mutants)
+     C <sexp of a prog>     answer:  B <wfb> <check diags> <check_pinned diags>      (no mutants)
+     (check = the frontend as it is now, check_pinned = the pinned tree with its four defects)
      Q <flags> <sexp>       answer:  B <wfb> <check_with flags> -      flags = 4 chars 0/1: void_eq void_ret tc_by_name field_unimported
    diags are a comma separated list of constructor names ("-" when empty). *)
 open C04_model
@@ -202,7 +203,7 @@ let fault_name = function
   | FBreakOutside -> "FBreakOutside" | FMissingReturn -> "FMissingReturn" | FPrivate -> "FPrivate"
   | FArticle -> "FArticle"
 
-let verdicts p = Printf.sprintf "%d %s %s" (if wfb p then 1 else 0) (diags (check p)) (diags (check_patched p))
+let verdicts p = Printf.sprintf "%d %s %s" (if wfb p then 1 else 0) (diags (check p)) (diags (check_pinned p))
 
 let () =
   let rec loop () =
